@@ -111,6 +111,20 @@ Theorem atoms_commute_iterload : forall (f : list A) c str k sel,
   (map (map sel) (fst (spec_iterload f c str k None)), snd (spec_iterload f c str k None)).
 Proof. exact spec_iterload_atoms. Qed.
 
+(* on the models themselves, for the readers that satisfy the property *)
+Theorem atoms_commute : forall g fm (f : list A) c str k sel fuel,
+  1 <= c -> 1 <= str -> length f < fuel ->
+  (fm = FArr true \/ fm = FNc \/ (fm = FSeq /\ k <= length f) \/ (fm = FTrr /\ k < length f)) ->
+  iterload junk g fm f c str k (Some sel) fuel =
+  (map (map sel) (fst (iterload junk g fm f c str k None fuel)), snd (iterload junk g fm f c str k None fuel)).
+Proof. exact (atoms_commute_right_readers junk). Qed.
+
+(* xtc as found, general form: after any seek, any stride > 1, any chunk, any file: never ends *)
+Theorem iterload_xtc_after_skip_never_terminates : forall g (f : list A) c str k ai,
+  1 <= c -> 1 < str -> 0 < k < length f ->
+  forall fuel, snd (iterload junk g FXtc f c str k ai fuel) = Diverged.
+Proof. exact (xtc_iterload_after_skip_diverges junk). Qed.
+
 End Statements.
 
 Print Assumptions load_stride.
@@ -133,6 +147,8 @@ Print Assumptions iterload_terminates.
 Print Assumptions load_list_join.
 Print Assumptions atoms_commute_load.
 Print Assumptions atoms_commute_iterload.
+Print Assumptions atoms_commute.
+Print Assumptions iterload_xtc_after_skip_never_terminates.
 
 (* ================================================================== the code as found: refuted *)
 Theorem iterload_chunks_hdf5_current_refuted :
